@@ -17,6 +17,11 @@ Emits Model/Tables_bodyshapes.v:
   struct_rules_no_site : list string   struct rules without any such site
   struct_sites_proved  : list (string * string * string)   (rule, expression, theorem) sites covered by a Coq theorem
 
+Phase 6: the functions Model/C01Struct.v follows (KNOWN_SHA / SOURCES_SHA, plus the macros create_fns_for! and
+create_fns_on_doc!) are pinned by the sha256 of the same normalised text; their names are part of pinned_bodies.
+PROVED_EXACT / PROVED_MULTI name struct-rule sites by their WHOLE census expression and must be found exactly once /
+n times in the census taken on this run (BODYSHAPES_PRINT_SHA=1 prints the current hashes).
+
 RAISES when one of the pinned functions no longer has the recorded text: the model must be re-read against the code."""
 import os, re, hashlib
 
@@ -69,6 +74,54 @@ KNOWN = {
         'fn[<iter_$thing_indices>](&self)->implIterator<Item=usize>+\'_{self.iter().enumerate().filter(|(_,t)|t.kind.[<is_$thing>]()).map(|(i,_)|i)}',
 }
 
+# phase 6: functions Model/C01Struct.v follows, pinned by the sha256 of the same normalised text (filled below)
+KNOWN_SHA = {
+    'AnA::lint': "667d0d9d8eb7732e2184c428dc0d8cd89295eba0c1279ac7c4725a32c708beeb",
+    'CapitalizePersonalPronouns::lint': "0a8e8b69ba0b51e90a75977c321a433e414b712d20b082ca562b067e63f98661",
+    'LinkingVerbs::lint': "c4890f812b452811535b65ff4a020248f439f460b50aaa7970fad2aaa30c3e92",
+    'MergeWords::lint': "1fd4d7537837d0f2ba95b6c7dae8fdf8b07336e0b7ea5dbd0a644ed4a747fb89",
+    'NoOxfordComma::lint': "3036aa44e3a6f3fb5f44dd33b1f83d40c3058061b9e142c838fdf79cf230a0a0",
+    'NoOxfordComma::match_to_lint': "84381bb89a78853c9f76c221770af47080ad8d12654ccac3e70d439f769d1e43",
+    'OxfordComma::lint': "f8ec06963df54bea1c0a2d4aa43a542a8fb9bca38e88c0e8231f9f15cede773b",
+    'SentenceCapitalization::lint': "82172f294d8dfd54d796e93b3dba92db544c065a8e0b71e2461389ad177b1408",
+    'Spaces::lint': "ce6d68d2b0625df37241cb07788262e89947d63d2d8becdfcc9921157d2b2b50",
+    'TokenStringExt::iter_linking_verb_indices': "32abe7636a2beb35cb604815e3ed95c7d6932814603605a86949c9a63fee7d0e",
+    'an_a::starts_with_vowel': "52465e5bfd1b4a02a5cb7ff3dc0b5f87dc37b96cd004b8f4744a765d953d958f",
+    'create_fns_for!': "55c27f6a5e8b2fd4bcbfd2f849aa224a57568a70adb7f2861e5c3d6bf607705c",
+    'AdjectiveOfA::lint': "d33ab3eb9ee1523b554c7a506bbdba9d6c6d568370b105ec4f7f70e8680ded56",
+    'CommaFixes::lint': "996c7e654f16e9485614250ac1725d4f761551fe60b8081206d6a7f6c00a1602",
+    'Document::get_token': "ca8959e9c3ac866d5c2c001ac72bce96940e686a70891e4abb9d8fc7883d5f58",
+    'InflectedVerbAfterTo::lint': "222d534495f1ce8d354879ba7647806fb92659929a2284d468c5744935b7c8cf",
+    'create_fns_on_doc!': "c7a4d4f07a60c8e300f9ee09e28812cd649041701c97f549c7aa3254959d7fa1",
+    'SpellCheck::lint': "0f321438a6d6e7a76ff61cee69ebb2ef011b3c49a262947064c384a0489b2a72",
+    'SpellCheck::new': "67522e9c7380a972d4e6c50b176498de314316db4a1d4460f79cd608806bd077",
+    'SpelledNumbers::lint': "c83ae903ef22dc394645720780327b165425a9315b00c69182a921477b09a2c5",
+    'spelled_numbers::spell_out_number': "ef4852117c3a90dbac54fcbf839e7a0a2efeb58a5481424cd9485c1e9c9138cf",
+}
+
+SOURCES_SHA = [
+    # key, file, anchor, fn name
+    ("AnA::lint", "harper-core/src/linting/an_a.rs", "impl Linter for AnA", "lint"),
+    ("an_a::starts_with_vowel", "harper-core/src/linting/an_a.rs", "impl Linter for AnA", "starts_with_vowel"),
+    ("LinkingVerbs::lint", "harper-core/src/linting/linking_verbs.rs", "impl Linter for LinkingVerbs", "lint"),
+    ("TokenStringExt::iter_linking_verb_indices", "harper-core/src/token_string_ext.rs", "impl TokenStringExt for [Token]", "iter_linking_verb_indices"),
+    ("NoOxfordComma::match_to_lint", "harper-core/src/linting/no_oxford_comma.rs", "impl NoOxfordComma", "match_to_lint"),
+    ("NoOxfordComma::lint", "harper-core/src/linting/no_oxford_comma.rs", "impl Linter for NoOxfordComma", "lint"),
+    ("OxfordComma::lint", "harper-core/src/linting/oxford_comma.rs", "impl Linter for OxfordComma", "lint"),
+    ("Spaces::lint", "harper-core/src/linting/spaces.rs", "impl Linter for Spaces", "lint"),
+    ("SentenceCapitalization::lint", "harper-core/src/linting/sentence_capitalization.rs", "Linter for SentenceCapitalization", "lint"),
+    ("CapitalizePersonalPronouns::lint", "harper-core/src/linting/capitalize_personal_pronouns.rs", "impl Linter for CapitalizePersonalPronouns", "lint"),
+    ("MergeWords::lint", "harper-core/src/linting/merge_words.rs", "Linter for MergeWords", "lint"),
+    ("AdjectiveOfA::lint", "harper-core/src/linting/adjective_of_a.rs", "impl Linter for AdjectiveOfA", "lint"),
+    ("InflectedVerbAfterTo::lint", "harper-core/src/linting/inflected_verb_after_to.rs", "Linter for InflectedVerbAfterTo", "lint"),
+    ("CommaFixes::lint", "harper-core/src/linting/comma_fixes.rs", "impl Linter for CommaFixes", "lint"),
+    ("Document::get_token", "harper-core/src/document.rs", "impl Document", "get_token"),
+    ("SpellCheck::new", "harper-core/src/linting/spell_check.rs", "SpellCheck<T> {", "new"),
+    ("SpellCheck::lint", "harper-core/src/linting/spell_check.rs", "Linter for SpellCheck", "lint"),
+    ("SpelledNumbers::lint", "harper-core/src/linting/spelled_numbers.rs", "impl Linter for SpelledNumbers", "lint"),
+    ("spelled_numbers::spell_out_number", "harper-core/src/linting/spelled_numbers.rs", "impl Linter for SpelledNumbers", "spell_out_number"),
+]
+
 SOURCES = [
     # key, file, anchor, fn name
     ("ModalOf::default", "harper-core/src/linting/modal_of.rs", "impl Default for ModalOf", "default"),
@@ -85,6 +138,53 @@ PROVED = [
     ("RepeatedWords", "chunk[idx_a+1..*idx_b]", "C01_repeated_words_slice_total"),
     ("LongSentences", "sentence[first..]", "C01_long_sentence_visible_slice"),
     ("LongSentences", "sentence[first..].span().unwrap()", "C01_long_sentence_span"),
+]
+# phase 6: (rule, the WHOLE site expression as the census prints it, theorem); each entry must hit exactly one site
+PROVED_EXACT = [
+    ("AnA", "chunk[first_idx..second_idx]", "C01_an_a_sites_total"),
+    ("AnA", "chunk[first_idx+1..second_idx]", "C01_an_a_sites_total"),
+    ("AnA", "&chunk[first_idx]", "C01_an_a_sites_total"),
+    ("AnA", "&chunk[second_idx]", "C01_an_a_sites_total"),
+    ("AnA", "word[0]", "C01_an_a_sites_total"),
+    ("LinkingVerbs", "&chunk[idx]", "C01_linking_verbs_sites_total"),
+    ("LinkingVerbs", "&chunk[0..idx]", "C01_linking_verbs_sites_total"),
+    ("LinkingVerbs", "prev_word.kind.as_word().unwrap()", "C01_linking_verbs_sites_total"),
+    ("NoOxfordComma", "&matched_toks[last_comma_index]", "C01_no_oxford_comma_total"),
+    ("NoOxfordComma", "&sentence[tok_cursor..]", "C01_no_oxford_comma_total"),
+    ("NoOxfordComma", "&sentence[tok_cursor..tok_cursor+match_len]", "C01_no_oxford_comma_total"),
+    ("OxfordComma", "&sentence[tok_cursor..]", "C01_oxford_comma_loop_total"),
+    ("OxfordComma", "&sentence[tok_cursor..tok_cursor+match_len]", "C01_oxford_comma_loop_total"),
+    ("Spaces", "panic!", "C01_spaces_sites_total"),
+    ("Spaces", "sentence[sentence.len()-2..sentence.len()-1]", "C01_spaces_sites_total"),
+    ("Spaces", "sentence[sentence.len()-2..sentence.len()-1].span().unwrap()", "C01_spaces_sites_total"),
+    ("SentenceCapitalization", "paragraph.iter_sentences().next().unwrap()", "C01_first_sentence_total"),
+    ("CapitalizePersonalPronouns", "replacement[0]", "C01_small_index_sites_total"),
+    ("MergeWords", "a_chars[0]", "C01_small_index_sites_total"),
+    ("MergeWords", "b_chars[0]", "C01_small_index_sites_total"),
+    ("AdjectiveOfA", "document.get_token(i).unwrap()", "C01_get_token_sites_total"),
+    ("AdjectiveOfA", "space_1.unwrap()", "C01_get_token_sites_total"),
+    ("AdjectiveOfA", "word_of.unwrap()", "C01_get_token_sites_total"),
+    ("AdjectiveOfA", "space_2.unwrap()", "C01_get_token_sites_total"),
+    ("AdjectiveOfA", "a_or_an.unwrap()", "C01_get_token_sites_total"),
+    ("InflectedVerbAfterTo", "document.get_token(pi).unwrap()", "C01_get_token_sites_total"),
+    ("CommaFixes", "document.get_token(ci).unwrap()", "C01_get_token_sites_total"),
+    ("CommaFixes", "document.get_token(ci-2).unwrap()", "C01_get_token_sites_total"),
+    ("CommaFixes", "document.get_token(ci-1).unwrap()", "C01_get_token_sites_total"),
+    ("SpellCheck", "NonZero::new(10000).unwrap()", "C01_spell_sites_total"),
+    ("SpellCheck", "word.kind.as_word().unwrap()", "C01_spell_sites_total"),
+    ("SpellCheck", "panic!", "C01_spell_sites_total"),
+    ("SpellCheck", "possibilities.last().unwrap()", "C01_spell_sites_total"),
+    ("SpelledNumbers", "number_tok.kind.as_number().unwrap()", "C01_spell_sites_total"),
+    ("SpelledNumbers", "spell_out_number(valueasu64).unwrap()", "C01_spell_sites_total"),
+    ("SpelledNumbers", "spell_out_number(hundred/100).unwrap()", "C01_spell_sites_total"),
+    ("SpelledNumbers", "spell_out_number(parent).unwrap()", "C01_spell_sites_total"),
+    ("SpelledNumbers", "spell_out_number(child).unwrap()", "C01_spell_sites_total"),
+]
+# the same expression several times in one rule: (rule, expression, how often, theorem)
+PROVED_MULTI = [
+    ("InflectedVerbAfterTo", "&chars[..chars.len()-2]", 2, "C01_get_token_sites_total"),
+    ("InflectedVerbAfterTo", "&chars[..chars.len()-1]", 2, "C01_get_token_sites_total"),
+    ("CommaFixes", "toks.1.unwrap()", 4, "C01_get_token_sites_total"),
 ]
 
 
@@ -174,7 +274,39 @@ def generate(repo):
         cut = code.find("#[cfg(test)]")
         code = code if cut < 0 else code[:cut]
         texts[key] = fn_text(code, anchor, name)
+    sha_texts = {}
+    for key, rel, anchor, name in SOURCES_SHA:
+        code = strip_comments(open(os.path.join(repo, rel), encoding="utf-8").read())
+        cut = code.find("#[cfg(test)]")
+        code = code if cut < 0 else code[:cut]
+        sha_texts[key] = fn_text(code, anchor, name)
     tse = strip_comments(open(os.path.join(repo, "harper-core/src/token_string_ext.rs"), encoding="utf-8").read())
+    mm_ = re.search(r"macro_rules! create_fns_for \{.*?\n\}\n", tse, flags=re.S)
+    if not mm_:
+        raise RuntimeError("bodyshapes: macro create_fns_for of token_string_ext.rs was not found")
+    sha_texts["create_fns_for!"] = re.sub(r"\s+", "", mm_.group(0))
+    docrs = strip_comments(open(os.path.join(repo, "harper-core/src/document.rs"), encoding="utf-8").read())
+    mm_ = re.search(r"macro_rules! create_fns_on_doc \{.*?\n\}\n", docrs, flags=re.S)
+    if not mm_:
+        raise RuntimeError("bodyshapes: macro create_fns_on_doc of document.rs was not found")
+    sha_texts["create_fns_on_doc!"] = re.sub(r"\s+", "", mm_.group(0))
+    for thing in ("comma", "adjective", "preposition"):
+        for mac, txt in (("create_fns_for", tse), ("create_fns_on_doc", docrs)):
+            if "%s!(%s);" % (mac, thing) not in re.sub(r"\s+", "", txt):
+                raise RuntimeError("bodyshapes: %s!(%s) is no longer instantiated" % (mac, thing))
+    for thing in ("word", "comma", "space"):
+        if "create_fns_for!(%s);" % thing not in re.sub(r"\s+", "", tse):
+            raise RuntimeError("bodyshapes: token_string_ext.rs no longer instantiates create_fns_for!(%s)" % thing)
+    if os.environ.get("BODYSHAPES_PRINT_SHA"):
+        for key in sorted(sha_texts):
+            print('    %r: "%s",' % (key, hashlib.sha256(sha_texts[key].encode()).hexdigest()))
+    for key, want in KNOWN_SHA.items():
+        got = hashlib.sha256(sha_texts[key].encode()).hexdigest()
+        if got != want:
+            raise RuntimeError("bodyshapes: %s no longer has the text Model/C01Struct.v was written after (sha256 %s, recorded %s):\n  now: %s"
+                               % (key, got, want, sha_texts[key]))
+    if sorted(KNOWN_SHA) != sorted(sha_texts):
+        raise RuntimeError("bodyshapes: KNOWN_SHA and SOURCES_SHA disagree")
     m = re.search(r"fn \[<iter_ \$thing _indices>\]\(&self\) -> impl Iterator<Item = usize> \+ '_ \{.*?\n            \}", tse, flags=re.S)
     if not m:
         raise RuntimeError("bodyshapes: the iter_<thing>_indices macro arm of token_string_ext.rs was not found")
@@ -229,6 +361,16 @@ def generate(repo):
         if not hit:
             raise RuntimeError("bodyshapes: the proved site `%s` of %s is gone — re-read the rule" % (expr, rule))
         proved.append((rule, expr, thm))
+    for rule, expr, n, thm in PROVED_MULTI:
+        hit = [s for s in sites if s[0] == rule and s[3] == expr]
+        if len(hit) != n:
+            raise RuntimeError("bodyshapes: the proved site `%s` of %s is found %d times, not %d — re-read the rule" % (expr, rule, len(hit), n))
+        proved += [(rule, expr, thm)] * n
+    for rule, expr, thm in PROVED_EXACT:
+        hit = [s for s in sites if s[0] == rule and s[3] == expr]
+        if len(hit) != 1:
+            raise RuntimeError("bodyshapes: the proved site `%s` of %s is found %d times — re-read the rule" % (expr, rule, len(hit)))
+        proved.append((rule, expr, thm))
 
     out = ["(* GENERATED by tools/tables/bodyshapes.py from /repo — do not edit. *)",
            "Require Import Base Overlap TokenSeq Pattern.",
@@ -237,7 +379,7 @@ def generate(repo):
            "Definition modal_of_modals : list text := [%s]." % "; ".join(coq_text(w) for w in modals),
            "Definition modal_of_pattern : pat :=\n  %s." % pattern, "",
            "(* functions whose text (comments and whitespace removed) equals the text Model/C01Bodies.v was written after *)",
-           "Definition pinned_bodies : list string := [%s]." % "; ".join(qs(k) for k in sorted(KNOWN)), "",
+           "Definition pinned_bodies : list string := [%s]." % "; ".join(qs(k) for k in sorted(list(KNOWN) + list(KNOWN_SHA))), "",
            "(* struct rules (`impl Linter for`, not PatternLinter): every unwrap / expect / index / slice / panicking macro /",
            "   Span::new of the non-test code of their files: (rule, file, kind, expression) *)",
            "Definition struct_rule_sites : list (string * string * string * string) := ["]
